@@ -65,8 +65,9 @@ def main():
         if ok:
             dst = os.path.join(VERIF, "seeded", name)
             os.makedirs(dst, exist_ok=True)
-            shutil.copy(os.path.join(seed, "patch.diff"), dst)
-            shutil.copy(demo, dst)
+            if os.path.realpath(seed) != os.path.realpath(dst):
+                shutil.copy(os.path.join(seed, "patch.diff"), dst)
+                shutil.copy(demo, dst)
             meta = {}
             try:
                 meta = json.load(open(os.path.join(seed, "meta.json")))
